@@ -210,8 +210,13 @@ fn explore(args: &[String]) {
         } };
         // the known-finding family F1 needs its window held open: the adding thread stalls right after its snapshot
         let strat = if fam == "kf1" && rng.chance(3, 4) { Strategy::Stall { victim: 1, at: 2 } } else { strat };
+        // the pin family needs a two-stage hold: see gen::pin
+        let strat = if fam == "pin" && rng.chance(5, 6) {
+            Strategy::Script(vec![Ph::UntilThreads(0, 3), Ph::Steps(1, 3 + rng.below(6)), Ph::ToEnd(2), Ph::Steps(1, 1 + rng.below(5)), Ph::Steps(0, 8 + rng.below(10))])
+        } else { strat };
         let sname = match &strat {
             Strategy::Random => "random".to_string(),
+            Strategy::Script(_) => "script".to_string(),
             Strategy::Pct { d } => format!("pct{}", d),
             Strategy::Stall { .. } => "stall".to_string(),
             Strategy::Solo { .. } => "solo".to_string(),
